@@ -326,6 +326,18 @@ def wid1(ctx, c):
             c.finding("Statement.fix_addresses:address-operand", "the target statement's address object is emitted as the operand at its own width",
                       "fix_addresses substitutes `%s` for a label operand: that NumericValue renders one byte for addresses below $100, so JMP L with L < $100 emits 2 bytes in a 3-byte statement"
                       % U(n.value), repo.loc(fa, n))
+    # the substitution applies to every operand whose value is a label: an extra condition leaves some of them holding the statement index
+    for n in ast.walk(_fl(repo, fa, depth=2)):
+        if isinstance(n, ast.If) and any(isinstance(x, ast.Assign) and U(x.targets[0]).endswith("code_pkg.additional") and
+                                         re.fullmatch(r"statements\[[^\]]+\]\.code_pkg\.address", U(x.value)) for x in n.body):
+            conj = n.test.values if isinstance(n.test, ast.BoolOp) and isinstance(n.test.op, ast.And) else [n.test]
+            extra = [U(v) for v in conj if not re.fullmatch(r"self\.operand\.value\.is_address\(\)", U(v))]
+            if extra and len(extra) < len(conj):
+                c.finding("Statement.fix_addresses:address-guard", "a label operand is given its address only when %s" % " and ".join(extra)[:70],
+                          "fix_addresses replaces a label operand's statement index by the label's address only when `%s` also holds: operands failing that test are emitted with the "
+                          "statement index as their value" % " and ".join(extra), repo.loc(fa, n))
+            elif not extra:
+                c.ok("Statement.fix_addresses:address-guard", "every operand whose value is a label gets the label's address", repo.loc(fa, n))
     # WID-4: hex() can be longer than hex_len()
     hx = repo.method(NV, "hex", inherited=False)
     hl = repo.method(NV, "hex_len", inherited=False)
@@ -444,9 +456,16 @@ def lay5(ctx, c):
             else:
                 c.ok("get_binary_array:statement-loop", "no early exit", repo.loc(f, n))
     s = repo.method("Statement", "__str__")
-    seq = re.findall(r"code_pkg\.(\w+)\.hex\(\)", U(s.node))
-    c.check(seq[:3] == ["op_code", "post_byte", "additional"], "Statement.__str__:order", "listing shows op_code, post_byte, additional", "listing order %s" % seq[:3],
-            "the listing concatenates %s" % seq[:3], repo.loc(s, s.node))
+    first = {}
+    for n in ast.walk(s.node):
+        if isinstance(n, ast.Attribute) and n.attr in ("op_code", "post_byte", "additional"):
+            first.setdefault(n.attr, (n.lineno, n.col_offset))
+    seq = [k for k, _ in sorted(first.items(), key=lambda kv: kv[1])]
+    if len(seq) < 3:
+        c.undecided("Statement.__str__:order", "fields-not-all-mentioned", str(seq), repo.loc(s, s.node))
+    else:
+        c.check(seq == ["op_code", "post_byte", "additional"], "Statement.__str__:order", "listing shows op_code, post_byte, additional", "listing order %s" % seq,
+                "the listing concatenates %s" % seq, repo.loc(s, s.node))
 
 
 EAM = "ExplicitAddressingMode."
@@ -676,6 +695,13 @@ def wid9(ctx, c):
         cases.append((st, "hex", (4,), "%04X" % (0x10000 - n)))
         st = {"self.int": n, "self.size_hint": None, "self.negative": True}
         cases.append((st, "hex", (4,), "%04X" % (0x10000 - n)))
+    preds = []
+    for n in (0, 1, 15, 16, 17, 127, 128, 129, 255, 256, 32768):
+        for neg in (False, True):
+            st = {"self.int": n, "self.size_hint": None, "self.negative": neg}
+            w4 = n <= (16 if neg else 15)
+            w8 = n <= (128 if neg else 127)
+            preds.append((st, w4, w8))
     n_ok = 0
     bad = {}
     undec = {}
@@ -692,6 +718,30 @@ def wid9(ctx, c):
             n_ok += 1
         else:
             bad.setdefault(meth, (desc, args, got, want))
+    # width predicates: a narrower claim is harmless (a wider form of the same offset is chosen), a wider claim is not; some predicate must hold
+    pbad = None
+    pund = None
+    for st, w4, w8 in preds:
+        desc = "%s$%X" % ("-" if st["self.negative"] else "", st["self.int"])
+        try:
+            g4, g8, g16 = (bool(fold_method(ctx, NV, m_, st)) for m_ in ("is_4_bit", "is_8_bit", "is_16_bit"))
+        except (NotConst, Raised) as e:
+            pund = "%s for %s" % (e, desc)
+            break
+        n_ok += 1
+        if g4 and not w4:
+            pbad = pbad or ("is_4_bit", desc, "claims a 5-bit field (-16..+15) holds %s" % desc)
+        if g8 and not w8:
+            pbad = pbad or ("is_8_bit", desc, "claims an 8-bit field (-128..+127) holds %s" % desc)
+        if not (g4 or g8 or g16):
+            pbad = pbad or ("is_16_bit", desc, "no width predicate holds for %s: the encoders fall through to their last arm" % desc)
+    if pbad:
+        c.finding("%s.%s" % (NV, pbad[0]), "%s() is wrong for %s" % (pbad[0], pbad[1]),
+                  "%s.%s %s, so the indexed encoders pick a form whose offset field cannot hold the value" % (NV, pbad[0], pbad[2]), where)
+    elif pund:
+        c.undecided("%s.width-predicates" % NV, "method-not-foldable", pund, where)
+    else:
+        c.ok("%s.width-predicates" % NV, "no predicate claims more than its field holds; one always holds", where)
     for meth in ("hex_len", "hex", "byte_len", "high_byte", "low_byte", "get_negative"):
         if meth in bad:
             desc, args, got, want = bad[meth]
@@ -705,4 +755,16 @@ def wid9(ctx, c):
     c.ok(NV, "%d renderings folded" % n_ok, where, nontrivial=False)
 
 
-RULES = {"WID-9": wid9, "WID-8": wid8, "WID-6": wid6, "WID-1": wid1, "WID-3": wid3, "WID-5": wid5, "LAY-5": lay5}
+
+def wid10(ctx, c):
+    """WID-10 the part of WID-9 the image writers rely on: high_byte() / low_byte() of 16-bit values (used by C11, C14)."""
+    from ..report import Collector
+    tmp = ctx.cache.get(("rule", "WID-9"))
+    if tmp is None:
+        tmp = Collector("WID-9")
+        wid9(ctx, tmp)
+    for i in tmp.insts:
+        if i.site.endswith(".high_byte") or i.site.endswith(".low_byte"):
+            c.insts.append(i)
+
+RULES = {"WID-10": wid10, "WID-9": wid9, "WID-8": wid8, "WID-6": wid6, "WID-1": wid1, "WID-3": wid3, "WID-5": wid5, "LAY-5": lay5}
